@@ -148,7 +148,7 @@ Definition issue (s : st) (sid : N) (a : akind) : st * list ev :=
   match a with
   | AKDoNot => (s, [])
   | AKNone => send s (attach_line sid 0) KAttachCmd
-  | AKNotCirc | AKRaise => (s, [EReported])
+  | AKNotCirc _ | AKRaise => (s, [EReported])          (* not isinstance(circ, Circuit), whatever its truth value *)
   | AKForeign =>
       match lookup 9000 (circs s) with
       | None => (s, [EReported])
